@@ -1314,9 +1314,10 @@ func (in *Interp) rangeIter(x value, t types.Type) value {
 		return it
 	case string:
 		return &strIter{in: in, s: x}
-	case *symStr, *decStr:
-		// range over symbolic string: supported only if all bytes are provably ASCII is not checked here
-		panic(unsupported("range over a symbolic string"))
+	case *symStr:
+		return &symStrIter{in: in, b: x.b}
+	case *decStr:
+		panic(unsupported("range over a decimal token"))
 	}
 	panic(unsupported(fmt.Sprintf("range over %T", x)))
 }
@@ -1411,4 +1412,26 @@ func (u *unsafeData) bytes(in *Interp) []*Term {
 		return out
 	}
 	return in.strBytes(u.str)
+}
+
+// symStrIter ranges over a string of symbolic bytes; every byte must be ASCII on the path
+// (non-ASCII symbolic text would need UTF-8 decoding over terms and is refused).
+type symStrIter struct {
+	in *Interp
+	b  []*Term
+	i  int
+}
+
+func (it *symStrIter) next() tuple {
+	ts := it.in.ts
+	if it.i >= len(it.b) {
+		return tuple{ts.False, ts.BV(64, 0), ts.BV(32, 0)}
+	}
+	c := it.b[it.i]
+	if it.in.branch(ts.Not(ts.Cmp(OpUlt, c, ts.BV(8, 0x80)))) {
+		panic(unsupported("range over symbolic text that may be non-ASCII"))
+	}
+	i := it.i
+	it.i++
+	return tuple{ts.True, ts.BV(64, uint64(i)), ts.Zext(c, 32)}
 }
